@@ -102,6 +102,16 @@ impl PExpr {
         }
     }
 
+    pub fn has_not(&self) -> bool {
+        match self {
+            Not(_) => true,
+            And(a, b) | Or(a, b) | RAnd(a, b) => a.has_not() || b.has_not(),
+            RNot(a) => a.has_not(),
+            ROr(es) => es.iter().any(|e| e.has_not()),
+            _ => false,
+        }
+    }
+
     pub fn depth(&self) -> usize {
         match self {
             And(a, b) | Or(a, b) | RAnd(a, b) => 1 + a.depth().max(b.depth()),
@@ -111,8 +121,10 @@ impl PExpr {
         }
     }
 
-    /// erg surface syntax of the expression over the subject `I` (only for raw-free expressions)
-    pub fn to_erg(&self) -> Option<String> {
+    /// erg surface syntax of the expression over the subject `I` (only for raw-free expressions).
+    /// `not_fn = false`: negation is the predicate operator `~(p)` (instantiated through `Predicate::invert`);
+    /// `not_fn = true`: negation is spelled with the builtin function `not (p)` (instantiated as a `Call` predicate).
+    pub fn to_erg(&self, not_fn: bool) -> Option<String> {
         let lit = |c: &i128| if *c < 0 { format!("({})", c) } else { format!("{}", c) };
         Some(match self {
             Val(_) | RAnd(..) | ROr(..) | RNot(..) => return None,
@@ -122,9 +134,9 @@ impl PExpr {
             Ne(c) => format!("I != {}", lit(c)),
             Gt(c) => format!("I > {}", lit(c)),
             Lt(c) => format!("I < {}", lit(c)),
-            And(a, b) => format!("({}) and ({})", a.to_erg()?, b.to_erg()?),
-            Or(a, b) => format!("({}) or ({})", a.to_erg()?, b.to_erg()?),
-            Not(a) => format!("not ({})", a.to_erg()?),
+            And(a, b) => format!("({}) and ({})", a.to_erg(not_fn)?, b.to_erg(not_fn)?),
+            Or(a, b) => format!("({}) or ({})", a.to_erg(not_fn)?, b.to_erg(not_fn)?),
+            Not(a) => if not_fn { format!("not ({})", a.to_erg(not_fn)?) } else { format!("~({})", a.to_erg(not_fn)?) },
         })
     }
 }
